@@ -618,6 +618,14 @@ func engineRTCore(which string) engineFn {
 					if msg := oracleC02(dm, r, tz); msg != "" {
 						ctx.violate("c02-transcription", msg, replay)
 					}
+					// the configured zone is honoured whichever bundled extension is configured
+					cfgX := g.extCfg(1 + g.r.Intn(2))
+					if rx, xerr, xcr := parseRT(b, tz, cfgX); xerr == nil && !xcr.panicked && !xcr.hung {
+						ctx.evaluations++
+						if msg := allZonesOK(rx, tz); msg != "" {
+							ctx.violate("c02-zone-under-extension", "under "+cfgX.coq()+" "+msg, map[string]any{"message": describeMsg(dm), "zone": cTz(tz), "config": cfgX.coq()})
+						}
+					}
 				case "C04":
 					if msg := oracleC04(dm, r, tz); msg != "" {
 						ctx.violate("c04-links", msg, replay)
@@ -726,4 +734,36 @@ func engineRTCore(which string) engineFn {
 			ctx.caseFile(fmt.Sprintf("rt_%s_%d", which, k), "Model.RtTypes Model.RtWire Model.Realtime", rtCaseType, rtCaseOk, cases[i:j])
 		}
 	}
+}
+
+// every instant of a result is expressed in the configured zone
+func allZonesOK(r *gtfs.Realtime, tz *time.Location) string {
+	if !r.CreatedAt.IsZero() && !zoneOK(&r.CreatedAt, tz) {
+		return "CreatedAt is not in the configured zone"
+	}
+	for i := range r.Trips {
+		t := &r.Trips[i]
+		if t.ID.HasStartDate && !zoneOK(&t.ID.StartDate, tz) {
+			return "a trip's StartDate is not in the configured zone"
+		}
+		for k := range t.StopTimeUpdates {
+			u := &t.StopTimeUpdates[k]
+			if u.Arrival != nil && !zoneOK(u.Arrival.Time, tz) || u.Departure != nil && !zoneOK(u.Departure.Time, tz) {
+				return "a stop time event is not in the configured zone"
+			}
+		}
+	}
+	for i := range r.Vehicles {
+		if !zoneOK(r.Vehicles[i].Timestamp, tz) {
+			return "a vehicle timestamp is not in the configured zone"
+		}
+	}
+	for i := range r.Alerts {
+		for _, p := range r.Alerts[i].ActivePeriods {
+			if !zoneOK(p.StartsAt, tz) || !zoneOK(p.EndsAt, tz) {
+				return "an alert active period is not in the configured zone"
+			}
+		}
+	}
+	return ""
 }
